@@ -641,6 +641,15 @@ func (r *e1Run) execStep(st e1Step) {
 			data = strings.ReplaceAll(data, "{nicka}", nickOf(sid))
 			data = strings.ReplaceAll(data, "{nickb}", nickOf(other))
 		}
+		if strings.Contains(data, "{sid") {
+			other := r.prevLineSession
+			if other == sid || other == 0 {
+				other = r.prevOtherSession
+			}
+			data = strings.ReplaceAll(data, "{sida}", fmt.Sprintf("%x", sid))
+			data = strings.ReplaceAll(data, "{sidb}", fmt.Sprintf("%x", other))
+			r.res.Add("ban_masks_naming_a_session", 1)
+		}
 		if sid != r.prevLineSession {
 			r.prevOtherSession = r.prevLineSession
 		}
